@@ -37,13 +37,6 @@ def sortCache (c : Cache) : Cache :=
     let (lo, hi) := acc.span (fun x => toHex x.1 < toHex e.1)
     lo ++ e :: hi) []
 
-def runHistory (c : Cache) (acc : List Bytes) : List (Bytes × Bytes) → Option (List Bytes × Cache)
-  | [] => some (acc.reverse, c)
-  | (tag, msg) :: rest =>
-    match taggedHash Hash.sha256 c tag msg with
-    | none => none
-    | some (d, c) => runHistory c (d :: acc) rest
-
 def onePair : List String → Option ((Bytes × Bytes) × List String)
   | a :: b :: r => do pure ((← parseBytes a, ← parseBytes b), r)
   | _ => none
@@ -53,7 +46,7 @@ def handle : List String → String
       let (calls, rest) ← parseCounted onePair toks
       if rest ≠ [] then none else
       pure <| orReject do
-        let (ds, c) ← runHistory [] [] calls
+        let (ds, c) ← taggedHistory Hash.sha256 [] calls
         let c := sortCache c
         pure (String.intercalate " " ([toString ds.length] ++ ds.map fmtBytes ++ [toString c.length]
           ++ (c.map fun (k, v) => fmtBytes k ++ " " ++ fmtBytes v)))
